@@ -10,6 +10,7 @@ import numpy as np
 
 from .. import common as C
 from .. import impl
+from .. import robust
 
 PARTIAL = [
     "whether LSODA's internal history honours the vector written back after each step is a SciPy/ODEPACK internal; "
@@ -85,6 +86,8 @@ def run(ctx, res):
     from pydrex import minerals as M
 
     rng = np.random.default_rng(ctx["seed"] + 909)
+    # history- and representation-robustness scenarios (see harness/robust.py)
+    robust.run(res, np.random.default_rng(ctx["seed"] + 77), ctx, "C09")
     N = 300 if not ctx["thorough"] else 6000
     res.rule = ("apply_gbs/extract_vars cases from families {generic, many/none/all below, one dominant, exact dyadic ties}; "
                 "update histories recorded through an LSODA proxy; a case is non-trivial when at least one grain is masked "
